@@ -202,4 +202,199 @@ theorem gensaltBsdi_injective (count : Nat) (rb rb' : Bytes) (n o n' o' : Nat) (
   have hh := List.append_cancel_left this
   exact le24_bytes rb rb' 0 (enc24_inj _ _ (le24_lt _ _) (le24_lt _ _) hh)
 
+
+/-! ### whole-writer injectivity for the remaining salted methods -/
+
+/-- md5crypt, standard salt size: with at least 16 random bytes and a buffer of the documented size the salt is the 8-character (48-bit)
+    encoding of the first six random bytes -/
+theorem gensaltMd5_full8 (count : Nat) (rb : Bytes) (n o : Nat) (S : Bytes) (e : Nat)
+    (h : gensaltMd5 count rb n o = .ok S e) (hn : 16 ≤ n) (ho : 192 ≤ o) :
+    S = [36, 49, 36] ++ (enc24 (le24 rb 0) ++ enc24 (le24 rb 3)) := by
+  unfold gensaltMd5 at h
+  split at h; · cases h
+  unfold gensaltSha at h
+  split at h; · cases h
+  have hc : shaClamp 1000 1000 1000 1000 = 1000 := by decide
+  rw [hc] at h
+  unfold gensaltShaCore at h
+  dsimp only at h
+  simp only [ne_eq, not_true_eq_false, if_false, if_true] at h
+  split at h; · cases h
+  split at h; · cases h
+  simp only [WOut.ok.injEq] at h
+  have h8 : Gen.MD5_SALT_LEN_MAX = 8 := rfl
+  rw [h8] at h
+  rw [← h.1, shaSaltLoop_full8 n o rb _ hn (by simp; omega)]
+
+/-- **md5crypt: the eight salt characters determine the six random bytes consumed** -/
+theorem gensaltMd5_injective (count : Nat) (rb rb' : Bytes) (n o n' o' : Nat) (S : Bytes) (e e' : Nat)
+    (h : gensaltMd5 count rb n o = .ok S e) (h' : gensaltMd5 count rb' n' o' = .ok S e')
+    (hn : 16 ≤ n) (ho : 192 ≤ o) (hn' : 16 ≤ n') (ho' : 192 ≤ o') : ∀ k, k < 6 → rbAt rb k = rbAt rb' k := by
+  have a := gensaltMd5_full8 count rb n o S e h hn ho
+  have b := gensaltMd5_full8 count rb' n' o' S e' h' hn' ho'
+  rw [a] at b
+  have hsalt := List.append_cancel_left b
+  have hlen : ∀ v, (enc24 v).length = 4 := fun v => rfl
+  have s0 := List.append_inj hsalt (by simp [hlen])
+  have g0 := le24_bytes rb rb' 0 (enc24_inj _ _ (le24_lt _ _) (le24_lt _ _) s0.1)
+  have g3 := le24_bytes rb rb' 3 (enc24_inj _ _ (le24_lt _ _) (le24_lt _ _) s0.2)
+  intro k hk
+  have : k = 0 ∨ k = 1 ∨ k = 2 ∨ k = 3 ∨ k = 4 ∨ k = 5 := by omega
+  rcases this with rfl | rfl | rfl | rfl | rfl | rfl
+  · exact g0.1
+  · exact g0.2.1
+  · exact g0.2.2
+  · exact g3.1
+  · exact g3.2.1
+  · exact g3.2.2
+
+theorem a64_inj : ∀ i j : Fin 64, a64 i.val = a64 j.val → i = j := by decide
+
+/-- **descrypt / bigcrypt: the two salt characters determine the twelve random bits consumed** (the low six bits of two bytes) -/
+theorem gensaltDes_injective (count : Nat) (rb rb' : Bytes) (n o n' o' : Nat) (S : Bytes) (e e' : Nat)
+    (h : gensaltDes count rb n o = .ok S e) (h' : gensaltDes count rb' n' o' = .ok S e') :
+    rbAt rb 0 % 64 = rbAt rb' 0 % 64 ∧ rbAt rb 1 % 64 = rbAt rb' 1 % 64 := by
+  unfold gensaltDes at h h'
+  split at h; · cases h
+  split at h; · cases h
+  split at h'; · cases h'
+  split at h'; · cases h'
+  simp only [WOut.ok.injEq] at h h'
+  have hh := h.1.trans h'.1.symm
+  simp only [List.cons.injEq, and_true] at hh
+  have am : ∀ i, a64 i = a64 (i % 64) := by intro i; unfold a64; rw [Nat.mod_mod]
+  constructor
+  · have := a64_inj ⟨rbAt rb 0 % 64, Nat.mod_lt _ (by decide)⟩ ⟨rbAt rb' 0 % 64, Nat.mod_lt _ (by decide)⟩ (by rw [← am, ← am]; exact hh.1)
+    exact Fin.mk.inj_iff.1 this
+  · have := a64_inj ⟨rbAt rb 1 % 64, Nat.mod_lt _ (by decide)⟩ ⟨rbAt rb' 1 % 64, Nat.mod_lt _ (by decide)⟩ (by rw [← am, ← am]; exact hh.2)
+    exact Fin.mk.inj_iff.1 this
+
+/-- **sunmd5: the eight salt characters determine the six random bytes 2…7** (bytes 0 and 1 go into the printed round count) -/
+theorem gensaltSunmd5_injective (count : Nat) (rb rb' : Bytes) (n o n' o' : Nat) (S : Bytes) (e e' : Nat)
+    (h : gensaltSunmd5 count rb n o = .ok S e) (h' : gensaltSunmd5 count rb' n' o' = .ok S e') : ∀ k, 2 ≤ k → k < 8 → rbAt rb k = rbAt rb' k := by
+  unfold gensaltSunmd5 at h h'
+  split at h; · cases h
+  split at h; · cases h
+  split at h'; · cases h'
+  split at h'; · cases h'
+  dsimp only at h h'
+  split at h; · cases h
+  split at h'; · cases h'
+  simp only [WOut.ok.injEq] at h h'
+  have hh := h.1.trans h'.1.symm
+  have hlen : ∀ v, (enc24 v).length = 4 := fun v => rfl
+  have t0 := (List.append_inj' hh rfl).1
+  have t1 := List.append_inj' t0 (by simp [hlen])
+  have t2 := List.append_inj' t1.1 (by simp [hlen])
+  have s0 := t2
+  have s1 := t1
+  have b3 : ∀ (x y z : Nat), x < 256 → y < 256 → z < 256 → x + y * 256 + z * 65536 < 2 ^ 24 := by intros; omega
+  have bb : ∀ (r : Bytes) (k : Nat), rbAt r k < 256 := fun r k => by unfold rbAt; exact (r.getD k 0).toNat_lt
+  have e1 := enc24_inj _ _ (b3 _ _ _ (bb rb 2) (bb rb 3) (bb rb 4)) (b3 _ _ _ (bb rb' 2) (bb rb' 3) (bb rb' 4)) s0.2
+  have e2 := enc24_inj _ _ (b3 _ _ _ (bb rb 5) (bb rb 6) (bb rb 7)) (b3 _ _ _ (bb rb' 5) (bb rb' 6) (bb rb' 7)) s1.2
+  have := bb rb 2; have := bb rb 3; have := bb rb 4; have := bb rb 5; have := bb rb 6; have := bb rb 7
+  have := bb rb' 2; have := bb rb' 3; have := bb rb' 4; have := bb rb' 5; have := bb rb' 6; have := bb rb' 7
+  intro k hk2 hk8
+  have : k = 2 ∨ k = 3 ∨ k = 4 ∨ k = 5 ∨ k = 6 ∨ k = 7 := by omega
+  rcases this with rfl | rfl | rfl | rfl | rfl | rfl <;> omega
+
+/-- the shape of a generated sha1crypt setting and what its parser reads back -/
+theorem gensaltSha1_shape (count : Nat) (rb : Bytes) (n osize : Nat) (S : Bytes) (e : Nat) (h : gensaltSha1 count rb n osize = .ok S e) :
+    ∃ olim n0, parseSha1 S = .ok { iterations := sha1Rounds count rb, salt := sha1SaltLoop rb n olim (Gen.CRYPT_SHA1_SALT_LENGTH + 1) 4 n0 } := by
+  unfold gensaltSha1 at h
+  have hsl : Gen.CRYPT_SHA1_SALT_LENGTH = 64 := by decide
+  generalize Gen.CRYPT_SHA1_SALT_LENGTH = F at h hsl
+  have hr := sha1Rounds_lt count rb
+  generalize sha1Rounds count rb = r at *
+  have hdl : (toDec r).length ≤ 10 := toDec_length_le10 r (by omega)
+  have hdp := toDec_length_pos r
+  have hn0l : ([36, 115, 104, 97, 49, 36] ++ toDec r ++ [36] : Bytes).length = 7 + (toDec r).length := by
+    simp only [List.length_append, List.length_cons, List.length_nil]; omega
+  split at h; · cases h
+  rename_i hn
+  split at h; · cases h
+  rename_i hos
+  simp only [hn0l] at h
+  generalize hL : (toDec r).length = L at *
+  split at h; · cases h
+  rename_i hn0
+  simp only [WOut.ok.injEq] at h
+  obtain ⟨hS, _⟩ := h
+  simp only [Nat.not_lt] at hn hos
+  -- the effective output limit
+  generalize holim : (if 7 + L + F + 2 > osize then osize - 2 else 7 + L + F) = olim at hS
+  have holb : 7 + L + 4 < olim ∧ olim ≤ 7 + L + 64 := by rw [← holim, hsl]; split <;> omega
+  generalize hsalt : sha1SaltLoop rb n olim (F + 1) 4 (7 + L) = salt at hS
+  obtain ⟨sp1, sp2⟩ := sha1SaltLoop_spec rb n olim (F + 1) 4 (7 + L)
+  have spos := sha1SaltLoop_nonempty rb n olim F 4 (7 + L) ⟨by omega, holb.1⟩
+  rw [hsalt] at sp1 sp2 spos
+  have hslen : salt.length ≤ 64 := by rw [Nat.max_def] at sp2; split at sp2 <;> omega
+  have hm : ([36, 115, 104, 97, 49, 36] : Bytes) = sha1Magic := rfl
+  subst hS
+  refine ⟨olim, 7 + L, ?_⟩
+  rw [hsalt]
+  have e1 : ([36, 115, 104, 97, 49, 36] : Bytes) ++ toDec r ++ [36] ++ salt ++ [36] = sha1Magic ++ (toDec r ++ 36 :: (salt ++ 36 :: [])) := by
+    rw [hm]; simp only [List.append_assoc, List.cons_append, List.nil_append]
+  have hfit : ¬ (sha1Magic.length + (toDec r).length + 1 + salt.length + 1 + Gen.SHA1_OUTPUT_SIZE + 1 > Gen.CRYPT_OUTPUT_SIZE) := by
+    have : sha1Magic.length = 6 := rfl
+    have : Gen.SHA1_OUTPUT_SIZE = 28 := by decide
+    have : Gen.CRYPT_OUTPUT_SIZE = 384 := by decide
+    omega
+  have hp := parseSha1_canon r salt [] (by unfold ULONG_MAX; omega) sp1 (by omega) hfit
+  rw [e1]
+  exact hp
+
+theorem be24_inj (a b c a' b' c' : Nat) (ha : a < 256) (hb : b < 256) (hc : c < 256) (ha' : a' < 256) (hb' : b' < 256) (hc' : c' < 256)
+    (h : enc24 (a * 65536 + b * 256 + c) = enc24 (a' * 65536 + b' * 256 + c')) : a = a' ∧ b = b' ∧ c = c' := by
+  have := enc24_inj _ _ (by omega) (by omega) h
+  omega
+
+/-- two salt loops that produce the same text read the same bytes, group by group -/
+theorem sha1SaltLoop_inj (rb rb' : Bytes) (rlim olim rlim' olim' : Nat) : ∀ fuel fuel' r o o',
+    sha1SaltLoop rb rlim olim fuel r o = sha1SaltLoop rb' rlim' olim' fuel' r o' →
+    ∀ j, r ≤ j → j < r + 3 * ((sha1SaltLoop rb rlim olim fuel r o).length / 4) → rbAt rb j = rbAt rb' j := by
+  intro fuel
+  induction fuel with
+  | zero => intro fuel' r o o' _ j hj1 hj2; simp [sha1SaltLoop] at hj2; omega
+  | succ f ih =>
+    intro fuel' r o o' h j hj1 hj2
+    have bb : ∀ (x : Bytes) (k : Nat), rbAt x k < 256 := fun x k => by unfold rbAt; exact (x.getD k 0).toNat_lt
+    simp only [sha1SaltLoop] at h hj2
+    split at h
+    · rename_i hc
+      simp only [hc, and_self, if_true, List.length_append, enc24_length] at hj2
+      cases fuel' with
+      | zero =>
+        simp only [sha1SaltLoop] at h
+        have := congrArg List.length h; simp [enc24_length] at this
+      | succ f' =>
+        simp only [sha1SaltLoop] at h
+        split at h
+        · have hh := List.append_inj h (by simp [enc24_length])
+          obtain ⟨e0, e1, e2⟩ := be24_inj _ _ _ _ _ _ (bb rb r) (bb rb (r + 1)) (bb rb (r + 2)) (bb rb' r) (bb rb' (r + 1)) (bb rb' (r + 2)) hh.1
+          by_cases hj : j < r + 3
+          · have : j = r ∨ j = r + 1 ∨ j = r + 2 := by omega
+            rcases this with rfl | rfl | rfl
+            · exact e0
+            · exact e1
+            · exact e2
+          · exact ih f' (r + 3) (o + 4) (o' + 4) hh.2 j (by omega) (by omega)
+        · have := congrArg List.length h; simp [enc24_length] at this
+    · rename_i hc
+      simp only [hc, if_false, List.length_nil] at hj2
+      omega
+
+/-- **sha1crypt: the salt characters determine the random bytes they were made from** (bytes 4, 5, … in groups of three; bytes 0…3 go into
+    the printed iteration count): two calls that return the same setting consumed the same salt bytes -/
+theorem gensaltSha1_injective (count count' : Nat) (rb rb' : Bytes) (n n' o o' : Nat) (S : Bytes) (e e' : Nat)
+    (h : gensaltSha1 count rb n o = .ok S e) (h' : gensaltSha1 count' rb' n' o' = .ok S e') :
+    sha1Rounds count rb = sha1Rounds count' rb' ∧
+    ∃ salt : Bytes, (∃ P, parseSha1 S = .ok P ∧ P.salt = salt) ∧ ∀ j, 4 ≤ j → j < 4 + 3 * (salt.length / 4) → rbAt rb j = rbAt rb' j := by
+  obtain ⟨olim, n0, hp⟩ := gensaltSha1_shape count rb n o S e h
+  obtain ⟨olim', n0', hp'⟩ := gensaltSha1_shape count' rb' n' o' S e' h'
+  rw [hp] at hp'
+  simp only [Except.ok.injEq, Sha1Parsed.mk.injEq] at hp'
+  refine ⟨hp'.1, _, ⟨_, hp, rfl⟩, ?_⟩
+  exact sha1SaltLoop_inj rb rb' n olim n' olim' _ _ 4 n0 n0' hp'.2
+
 end Xc.C12
